@@ -89,8 +89,9 @@ class Case:
         # custom features: registered node feature "score", registered edge feature "w"
         tracks.features["score"] = {"feature_type": "node", "value_type": "int", "num_values": 1,
                                     "required": False, "default_value": None}
-        tracks.features["w"] = {"feature_type": "edge", "value_type": "int", "num_values": 1,
-                                "required": False, "default_value": None}
+        if not sp.get("w_unregistered"):
+            tracks.features["w"] = {"feature_type": "edge", "value_type": "int", "num_values": 1,
+                                    "required": False, "default_value": None}
         extra = [self.keyname[k] for k in sp.get("enable", [])]
         if extra:
             tracks.enable_features(extra)
